@@ -438,7 +438,7 @@ func (w *World) advanceTo(at time.Time, why string) {
 	// a timer callback is an operation that begins when the timer fires (its goroutine
 	// exists from then on), not when the scheduler first lets it run
 	for _, t := range armed {
-		if !t.Armed() && t.OpSeq == 0 {
+		if !t.Armed() && !t.Dead() && t.OpSeq == 0 {
 			t.OpSeq = seq
 		}
 	}
